@@ -78,11 +78,13 @@ class SamplingCartesianGridLOS(Model):
             distances=self.distances,
             shape=jnp.array(shape),
         )
-        super().__init__(
-            domain=ShapeWithDtype(shape, dtype), target=ShapeWithDtype(end.shape, dtype)
-        )
+        # The target (one value per line of sight) is inferred from the call
+        super().__init__(domain=ShapeWithDtype(shape, dtype))
 
     def __call__(self, x):
+        if self.start.ndim == 1 and self.end.ndim == 1:
+            # a single line of sight
+            return self._los(x, self.start, self.end)
         in_axes = (None, 0, 0)
         if self.start.ndim < self.end.ndim:
             in_axes = (None, None, 0)
